@@ -1,4 +1,238 @@
-import ShootVerif.Spec.Mapper
+import ShootVerif.Proofs.MapperPairs
+/-!
+C05 — ToX/FromX copy exactly the matching field pairs, by the type rules.
+
+Model: `ShootVerif.Mapper.plan` (Model/Mapper.lean) — the generator's pair loops against the two
+write-sets; statement lists `Plan.toStmts` / `Plan.fromStmts` (what mapper.tmpl ranges over).
+Spec: `specTo` / `specFrom` / `specStrategy` / `specNameMatch` (Spec/Mapper.lean), written from the text.
+
+All theorems quantify over ALL inputs (struct trees, mapper methods, convertibility relation, flags);
+hypotheses are region clauses and each is shown satisfiable by an `example` below.
+-/
 namespace ShootVerif.Mapper
-theorem C05_placeholder : True := trivial
+open ShootVerif.Transfer
+
+/-- the claim logs never name a written field twice — for every input, including accessor mode
+    and inputs where one field matches several partners (invariant of the write-sets, by
+    induction over both pair loops) -/
+theorem C05_claims_once (inp : Input) :
+    ((plan inp).st.toC.map (·.wr.name)).Nodup ∧ ((plan inp).st.fromC.map (·.wr.name)).Nodup := by
+  obtain ⟨_, _, h⟩ := plan_inv inp
+  exact ⟨h.toNodup, h.fromNodup⟩
+
+/-- headline: no destination field is assigned twice by ToX and no source field twice by FromX
+    (plain exported structs; the accessor-mode counterpart is C15_set_once) -/
+theorem C05_write_once (inp : Input) (hs : inp.srcNew = false) (hd : inp.destNew = false) :
+    ((plan inp).toStmts.map (·.wr.name)).Nodup ∧ ((plan inp).fromStmts.map (·.wr.name)).Nodup := by
+  obtain ⟨_, _, h⟩ := plan_inv inp
+  have h1 : (plan inp).srcFields.Nodup := by
+    have : (plan inp).srcFields = sideFields inp.src false := by simp [plan, hs]
+    rw [this]; exact nodup_of_map_nodup _ _ (sideFields_plain_nodup _)
+  have h2 : (plan inp).destFields.Nodup := by
+    have : (plan inp).destFields = sideFields inp.dest false := by simp [plan, hd]
+    rw [this]; exact nodup_of_map_nodup _ _ (sideFields_plain_nodup _)
+  exact ⟨stmts_nodup _ _ h1 h.toNodup, stmts_nodup _ _ h2 h.fromNodup⟩
+
+/-- every emitted statement copies between two fields of the two lists whose names match and whose
+    types admit the strategy used: unmatched and incompatible fields are never written (they stay zero) -/
+theorem C05_unmatched_zero (inp : Input) :
+    (∀ c ∈ (plan inp).toStmts, c.rd ∈ (plan inp).srcFields ∧ c.wr ∈ (plan inp).destFields ∧
+        inp.nm c.rd c.wr = true ∧ justified inp.conv (indexed inp.fns) .src .dest c) ∧
+    (∀ c ∈ (plan inp).fromStmts, c.wr ∈ (plan inp).srcFields ∧ c.rd ∈ (plan inp).destFields ∧
+        inp.nm c.wr c.rd = true ∧ justified inp.conv (indexed inp.fns) .dest .src c) := by
+  obtain ⟨_, _, h⟩ := plan_inv inp
+  constructor
+  · intro c hc
+    have := h.toPair c (stmts_sub hc).1
+    have hp := (mem_pairs _ _ _ _ _).mp this.1
+    exact ⟨hp.1, hp.2.1, hp.2.2, this.2⟩
+  · intro c hc
+    have := h.fromPair c (stmts_sub hc).1
+    have hp := (mem_pairs _ _ _ _ _).mp this.1
+    exact ⟨hp.1, hp.2.1, hp.2.2, this.2⟩
+
+/-- a `map:"-"` field at the top level is not a field of the generator at all -/
+theorem C05_skip_tag (f : FDecl) (rest : Tree) (h : f.tag = .skip) : walkTop (.field f rest) = walkTop rest := by
+  simp [walkTop, h]
+
+/-- headline: with unique name matching, destination field `d` is written from source field `s`
+    iff the names match and a strategy exists — and the strategy is `pairStrat` (C05_strategy says
+    what that is). No write-set appears on the right-hand side. -/
+theorem C05_pairs (inp : Input) (hs : inp.srcNew = false) (hd : inp.destNew = false)
+    (hu : uniquePairs inp = true) (c : Claim) :
+    (c ∈ (plan inp).toStmts ↔
+      c.rd ∈ (plan inp).srcFields ∧ c.wr ∈ (plan inp).destFields ∧ inp.nm c.rd c.wr = true ∧ c.wr.isGet = false ∧
+      pairStrat inp.conv (indexed inp.fns) .src .dest c.rd.ty c.wr.ty = some c.strat) ∧
+    (c ∈ (plan inp).fromStmts ↔
+      c.wr ∈ (plan inp).srcFields ∧ c.rd ∈ (plan inp).destFields ∧ inp.nm c.wr c.rd = true ∧ c.wr.isGet = false ∧
+      pairStrat inp.conv (indexed inp.fns) .dest .src c.rd.ty c.wr.ty = some c.strat) := by
+  have hU : Unique (pairs inp.nm (plan inp).srcFields (plan inp).destFields) := by
+    simpa [uniquePairs, Unique] using hu
+  have hst := plan_plain_st inp hs hd
+  have hto := toC_char inp.conv inp.fns _ hU [] [] 
+  have hfrom := fromC_char inp.conv inp.fns _ hU [] []
+  constructor
+  · have key : c ∈ (plan inp).toStmts ↔ c ∈ (plan inp).st.toC := by
+      apply stmts_eq_claims
+      · intro c1 h1 c2 h2 e
+        rw [hst] at h1 h2
+        obtain ⟨p1, hp1, _, _, s1, hs1, rfl⟩ := (hto c1).mp h1
+        obtain ⟨p2, hp2, _, _, s2, hs2, rfl⟩ := (hto c2).mp h2
+        have : p1 = p2 := inj_of_map_nodup (fun x : Field × Field => x.1.name) _ hU.1 hp1 hp2 (by simpa using congrArg Field.name e)
+        subst this
+        rw [hs1] at hs2
+        cases hs2
+        rfl
+      · intro c1 h1
+        rw [hst] at h1
+        obtain ⟨p1, hp1, _, _, s1, _, rfl⟩ := (hto c1).mp h1
+        exact ((mem_pairs _ _ _ _ _).mp hp1).1
+    rw [key, hst, hto]
+    constructor
+    · rintro ⟨p, hp, _, hg, s, hs', rfl⟩
+      have := (mem_pairs _ _ _ _ _).mp hp
+      exact ⟨this.1, this.2.1, this.2.2, hg, hs'⟩
+    · rintro ⟨h1, h2, h3, h4, h5⟩
+      exact ⟨(c.rd, c.wr), (mem_pairs _ _ _ _ _).mpr ⟨h1, h2, h3⟩, by simp, h4, c.strat, h5, rfl⟩
+  · have key : c ∈ (plan inp).fromStmts ↔ c ∈ (plan inp).st.fromC := by
+      apply stmts_eq_claims
+      · intro c1 h1 c2 h2 e
+        rw [hst] at h1 h2
+        obtain ⟨p1, hp1, _, _, s1, hs1, rfl⟩ := (hfrom c1).mp h1
+        obtain ⟨p2, hp2, _, _, s2, hs2, rfl⟩ := (hfrom c2).mp h2
+        have : p1 = p2 := inj_of_map_nodup (fun x : Field × Field => x.2.name) _ hU.2 hp1 hp2 (by simpa using congrArg Field.name e)
+        subst this
+        rw [hs1] at hs2
+        cases hs2
+        rfl
+      · intro c1 h1
+        rw [hst] at h1
+        obtain ⟨p1, hp1, _, _, s1, _, rfl⟩ := (hfrom c1).mp h1
+        exact ((mem_pairs _ _ _ _ _).mp hp1).2.1
+    rw [key, hst, hfrom]
+    constructor
+    · rintro ⟨p, hp, _, hg, s, hs', rfl⟩
+      have := (mem_pairs _ _ _ _ _).mp hp
+      exact ⟨this.1, this.2.1, this.2.2, hg, hs'⟩
+    · rintro ⟨h1, h2, h3, h4, h5⟩
+      exact ⟨(c.wr, c.rd), (mem_pairs _ _ _ _ _).mpr ⟨h1, h2, h3⟩, by simp, h4, c.strat, h5, rfl⟩
+
+/-- the strategy the loop computes is the one the property prescribes: the user's mapper method when
+    one with exactly those types exists, else recursive mapping for struct types of the two packages
+    (value / pointer / slice), else assignment for identical types, else a conversion unless it is
+    string<->fixed-width integer — provided the named types of the two packages that meet here are
+    structs (`StructOnly`; the complement is finding region F_namedScalarSub) -/
+theorem C05_strategy (inp : Input) (rdPkg wrPkg : Pkg) (a b : Ty)
+    (h1 : StructOnly rdPkg wrPkg a.strip.2 b.strip.2)
+    (h2 : ∀ e1 e2, a = .slice e1 → b = .slice e2 → StructOnly rdPkg wrPkg e1.strip.2 e2.strip.2) :
+    pairStrat inp.conv (indexed inp.fns) rdPkg wrPkg a b = specStrategy inp rdPkg wrPkg a b :=
+  pairStrat_eq_spec inp rdPkg wrPkg a b h1 h2
+
+/-- -way only selects which methods are emitted; the plan itself does not depend on it -/
+theorem C05_way (inp : Input) (w : Way) :
+    plan { inp with way := w } = plan inp ∧
+    (toGen { inp with way := w } = true ↔ w ≠ .fromOnly) ∧ (fromGen { inp with way := w } = true ↔ w ≠ .toOnly) := by
+  refine ⟨rfl, ?_, ?_⟩ <;> cases w <;> simp [toGen, fromGen]
+
+/-! ### name matching -/
+
+theorem C05_match_refl (a : List Char) : smartMatchL a a = true := by simp [smartMatchL]
+
+theorem C05_match_symm (a b : List Char) : smartMatchL a b = smartMatchL b a := by
+  unfold smartMatchL
+  rw [Bool.eq_iff_iff]
+  simp only [Bool.and_eq_true, Bool.or_eq_true, beq_iff_eq]
+  constructor <;> rintro ⟨h1, h2 | h2⟩ <;> simp [h1, h2]
+
+/-- names of different length never match -/
+theorem C05_match_length (a b : List Char) (h : smartMatchL a b = true) : a.length = b.length := by
+  simp only [smartMatchL, Bool.and_eq_true, beq_iff_eq] at h
+  exact h.1
+
+/-- with -i the relation is exactly case-insensitive equality of the (tag-substituted) names -/
+theorem C05_match_i (tm : List (String × String)) (f1 f2 : Field) (hg : f1.isGet = false) (hs : f1.isSet = false) :
+    canNameMatch tm true f1 f2 = equalFold ((mapGet tm f1.matchingName).getD f1.matchingName) f2.matchingName := by
+  simp [canNameMatch, hg, hs]
+
+/-- a `map:"X"` tag replaces the source name before matching (keyed by the Pascal-cased field name) -/
+theorem C05_match_tag (name tag : String) (ty : Ty) (f2 : Field) (ic : Bool) (h : pascalS name = name) :
+    canNameMatch (tagMap (.field { name := name, ty := ty, tag := .name tag } .nil)) ic
+      { name := name, path := [name], ty := ty } f2 =
+    (if ic then equalFold (pascalS tag) f2.matchingName else smartMatch (pascalS tag) f2.matchingName) := by
+  simp [canNameMatch, tagMap, mapGet, Field.matchingName, h]
+
+/-! ### non-vacuity: concrete inputs meeting the hypotheses -/
+
+/-- src {ID int; Name string; Sub *src.Sub}  dest {Id int64; Name string; Sub dest.Sub}  with a method int→int64 -/
+def exWF : Input :=
+  let sub := Ty.named .src "Sub" (.struct "N:int")
+  let subD := Ty.named .dest "Sub" (.struct "N:int,Other:string")
+  { src := .field { name := "ID", ty := .basic "int" } (.field { name := "Name", ty := .basic "string" }
+            (.field { name := "Sub", ty := .ptr sub } .nil)),
+    dest := .field { name := "Id", ty := .basic "int64" } (.field { name := "Name", ty := .basic "string" }
+            (.field { name := "Sub", ty := subD } .nil)),
+    fns := [{ name := "Fn0", param := .basic "int", result := .basic "int64" }],
+    mapperPtr := some false,
+    conv := [(.basic "int", .basic "int64"), (.basic "int64", .basic "int")] }
+
+example : exWF.srcNew = false ∧ exWF.destNew = false ∧ uniquePairs exWF = true ∧ region05 exWF = "WF" := by decide
+example : ((plan exWF).toStmts.map (fun c => (c.rd.name, c.wr.name, c.strat))) =
+    [("ID", "Id", .func 0), ("Name", "Name", .assign), ("Sub", "Sub", .sub true false)] := by decide
+example : ((plan exWF).fromStmts.map (fun c => (c.rd.name, c.wr.name, c.strat))) =
+    [("Id", "ID", .conv), ("Name", "Name", .assign), ("Sub", "Sub", .sub false true)] := by decide
+example : obs05 exWF = spec05 exWF := by decide
+example : StructOnly .src .dest (Ty.ptr (.named .src "Sub" (.struct "N:int"))).strip.2
+    (Ty.named .dest "Sub" (.struct "N:int,Other:string")).strip.2 := by
+  intro _ _; decide
+
+/-! ### finding regions: the unchanged code violates the property there -/
+
+/-- one source field matches two destination fields: `Target` keeps the last, `ID` is never written -/
+def wMulti : Input :=
+  { src := .field { name := "ID", ty := .basic "int" } .nil,
+    dest := .field { name := "ID", ty := .basic "int" } (.field { name := "Id", ty := .basic "int" } .nil) }
+theorem C05_F_multiMatch_witness : region05 wMulti = "F_multiMatch" ∧ obs05 wMulti ≠ spec05 wMulti := by decide
+
+/-- named scalar types of the two packages are sent to ToX/FromX, which they do not have -/
+def wNamedScalar : Input :=
+  let k1 := Ty.named .src "Kind" (.basic "int")
+  let k2 := Ty.named .dest "Kind" (.basic "int")
+  { src := .field { name := "K", ty := k1 } .nil, dest := .field { name := "K", ty := k2 } .nil,
+    conv := [(k1, k2), (k2, k1)] }
+theorem C05_F_namedScalarSub_witness : region05 wNamedScalar = "F_namedScalarSub" ∧ obs05 wNamedScalar ≠ spec05 wNamedScalar := by decide
+
+/-- `User_name` with `map:"Title"`: stored under `UserName`, looked up under `User_name` -/
+def wTagKey : Input :=
+  { src := .field { name := "User_name", ty := .basic "string", tag := .name "Title" } .nil,
+    dest := .field { name := "Title", ty := .basic "string" } .nil }
+theorem C05_F_tagKey_witness : region05 wTagKey = "F_tagKey" ∧ obs05 wTagKey ≠ spec05 wTagKey := by decide
+
+/-- `map:"-"` on a promoted field is ignored -/
+def wNestedTag : Input :=
+  { src := .embed "Base" false (.field { name := "Name", ty := .basic "string", tag := .skip } .nil) .nil,
+    dest := .field { name := "Name", ty := .basic "string" } .nil }
+theorem C05_F_nestedTag_witness : region05 wNestedTag = "F_nestedTag" ∧ obs05 wNestedTag ≠ spec05 wNestedTag := by decide
+
+/-- a top-level `map:"-"` field with a promoted namesake: the generator maps the promoted one by
+    name, Go resolves the name to the tagged one -/
+def wSkipShadow : Input :=
+  { src := .field { name := "Name", ty := .basic "int", tag := .skip }
+            (.embed "Base" false (.field { name := "Name", ty := .basic "int" } .nil) .nil),
+    dest := .field { name := "Name", ty := .basic "int" } .nil }
+theorem C05_F_skipShadow_witness : region05 wSkipShadow = "F_skipShadow" ∧ obs05 wSkipShadow ≠ spec05 wSkipShadow := by decide
+
+/-- pointer conversion printed as `*dest.Kind(x)` -/
+def wPtrConv : Input :=
+  let a := Ty.ptr (.basic "int")
+  let b := Ty.ptr (.named .dest "Kind" (.basic "int"))
+  { src := .field { name := "P", ty := a } .nil, dest := .field { name := "P", ty := b } .nil, conv := [(a, b), (b, a)] }
+theorem C05_F_ptrConv_witness : region05 wPtrConv = "F_ptrConv" ∧ obs05 wPtrConv ≠ spec05 wPtrConv := by decide
+
+/-- FromX converts into a named type of the source package as `src.Label(x)` inside package src -/
+def wConvSrc : Input :=
+  let a := Ty.named .src "Label" (.basic "string")
+  { src := .field { name := "L", ty := a } .nil, dest := .field { name := "L", ty := .basic "string" } .nil,
+    conv := [(a, .basic "string"), (.basic "string", a)] }
+theorem C05_F_convSrcNamed_witness : region05 wConvSrc = "F_convSrcNamed" ∧ obs05 wConvSrc ≠ spec05 wConvSrc := by decide
+
 end ShootVerif.Mapper
